@@ -965,10 +965,13 @@ def protocol_problems(ix, cls, fn, traps):
 
 
 def body_before_trap(fn):
+    env = local_assigns(fn)
+
     def tr(node, state):
         s = set(state)
         for c in pyflow.calls_in(node):
-            if isinstance(c.func, ast.Attribute) and c.func.attr == 'generate_execution_code' and is_self_attr(c.func.value) and c.func.value.attr == 'body':
+            recv = deref(c.func.value, env) if isinstance(c.func, ast.Attribute) else None       # `b = self.body; b.generate_execution_code(code)`
+            if recv is not None and c.func.attr == 'generate_execution_code' and is_self_attr(recv) and recv.attr == 'body':
                 s.add('B')
             if self_call(c, ('trap_parallel_exit',)) and 'B' not in s:
                 s.add(('BAD', c.lineno))
